@@ -40,6 +40,7 @@ type frame struct {
 	npanic  map[ssa.Instruction]string
 	joinedRecs []spawnRec
 	contrib map[string]string
+	spawnArgs []Val // arguments of the go statement being processed
 	monInit bool // monitor invariants have been established (checked before the first spawn)
 	ghostAt map[string]Val
 	iterSt  map[int]*State
